@@ -182,7 +182,7 @@ def to_obs_trace(tid, scn, res, root_hint=None):
             newrows = sorted({tn(r["task"]) for r in idx if (r["task"], r["ts"]) not in rows0})
             evs.append({"e": "Return", "exit": exit_, "hang": hang, "stderr": e["stderr_kind"],
                         "failed": [tn(x) for x in e["failed"]], "skipped": [tn(x) for x in e["skipped"]],
-                        "newrows": newrows, "aborted": "aborted" in e.get("banners", [])})
+                        "newrows": newrows, "aborted": "abort-reported" in e.get("banners", [])})
     for ident, k in sorted(extra.items(), key=lambda x: x[1]):
         cfg["deps"].append([])
         cfg["kind"].append("cmd")
